@@ -30,6 +30,7 @@ type entrySite struct {
 	ordinal   int
 	withChain bool
 	g         *cfg.CFG
+	copies    map[ast.Node]bool // assignments that only move the results out of an expanded helper's temporaries
 }
 
 func (s *entrySite) key() string {
@@ -117,6 +118,43 @@ func collectInFunc(p *Program, pk *packages.Package, name string, fn ast.Node, b
 					if len(x.Lhs) == 2 {
 						s.entryObj = lhsObj(pk.TypesInfo, x.Lhs[0])
 						s.blockObj = lhsObj(pk.TypesInfo, x.Lhs[1])
+						// results parked in the temporaries of an expanded helper and copied out right away
+						// (`_ilN_r0, _ilN_r1 = api.Entry(...); entry, blockErr = _ilN_r0, _ilN_r1`): the copies are the variables
+						for hop := 0; hop < 3; hop++ {
+							moved := false
+							ast.Inspect(body, func(m ast.Node) bool {
+								as, ok := m.(*ast.AssignStmt)
+								if !ok || as == x || len(as.Lhs) != len(as.Rhs) {
+									return true
+								}
+								for k, r := range as.Rhs {
+									id, ok := r.(*ast.Ident)
+									if !ok || !strings.HasPrefix(id.Name, "_il") {
+										continue
+									}
+									o := pk.TypesInfo.Uses[id]
+									if o != nil && o == s.entryObj {
+										if no := lhsObj(pk.TypesInfo, as.Lhs[k]); no != nil {
+											s.entryObj, moved = no, true
+										}
+									} else if o != nil && o == s.blockObj {
+										if no := lhsObj(pk.TypesInfo, as.Lhs[k]); no != nil {
+											s.blockObj, moved = no, true
+										}
+									} else {
+										continue
+									}
+									if s.copies == nil {
+										s.copies = map[ast.Node]bool{}
+									}
+									s.copies[as] = true
+								}
+								return true
+							})
+							if !moved {
+								break
+							}
+						}
 					}
 					for _, a := range call.Args {
 						if c2, ok := a.(*ast.CallExpr); ok && isAPIFunc(pk.TypesInfo, c2, "WithSlotChain") {
@@ -436,6 +474,9 @@ func (s *entrySite) split() split {
 					}
 					return
 				}
+			}
+			if s.copies[n] {
+				continue
 			}
 			if usesObj(info, n, s.entryObj, true) || len(s.handlerCalls(n)) > 0 {
 				sp.earlyUse = append(sp.earlyUse, n)
